@@ -160,8 +160,12 @@ class _Work(core.System):
 class _Ident(collectors.Collector):
     def collect(self):
         m = self.model
-        self.records.append({'uuid': m.run_uuid, 'collector': self.id, 'params': m.params, 't': m.systems.timestep,
-                             'model_t': m.timestep, 'pid': _os.getpid(), 'ordinal': m.ordinal, 'class_state': type(m).latest})
+        rec = {'uuid': m.run_uuid, 'collector': self.id, 'params': m.params, 't': m.systems.timestep,
+               'model_t': m.timestep, 'pid': _os.getpid(), 'ordinal': m.ordinal, 'class_state': type(m).latest}
+        if m.collector_style == 'rebind':
+            self.records = self.records + [rec]       # the documented attribute assigned anew (a rolling window / a filtered copy)
+        else:
+            self.records.append(rec)
 
 
 class WarmModel(core.Model):
@@ -175,7 +179,7 @@ class WarmModel(core.Model):
 
 class VModel(core.Model):
     """Fresh uuid per construction; stamps every record; completes at `stop`; sleeps a little so completion order varies."""
-    __slots__ = ['run_uuid', 'params', 'ordinal', 'fault', 'delay', 'stop', 'ticks']
+    __slots__ = ['run_uuid', 'params', 'ordinal', 'fault', 'delay', 'stop', 'ticks', 'collector_style']
     latest = None         # class-level state set up by the constructor (like species-wide class components / default tags / a global seed)
 
     def execute(self, n=1):
@@ -193,6 +197,7 @@ class VModel(core.Model):
         with open(_os.path.join(ctl, 'control.json')) as f:
             control = _json.load(f)
         self.fault = control.get('fault')
+        self.collector_style = control.get('collector_style') or 'append'
         delays = control.get('delays') or [0]
         self.delay = delays[self.ordinal % len(delays)]
         if self.fault and self.fault.get('kind') == 'ctor' and self.fault['ordinal'] == self.ordinal:
@@ -206,6 +211,8 @@ class VModel(core.Model):
                 self.systems.add_system(_Ident(cid, self))
             else:
                 self.systems.add_system(_Ident(cid, self, priority=control['collector_priority']))
+        if control.get('warmup'):
+            self.execute(control['warmup'])        # a burn-in the model runs itself before it is handed over
 
 
 # ---------------------------------------------------------------------------------------------------------------------
